@@ -1,5 +1,5 @@
 /- C07 driver: `C07 run <server> <ctype> <date> [op,…]`, `C07 raw <code> <reason> [[set|add,n,v],…]`,
-   `C07 wsgi <server> <ctype> <code> <reason> [[n,v],…]` (model), `C07 read x<wire>` (spec) -/
+   `C07 wsgi <server> <ctype> <code> <reason> [[n,v],…]` (model), `C07 read x<wire>` (spec: lines, remainder, clean?, per header line the strict field parse) -/
 import TornadoModel.Base.Wire
 import TornadoModel.C07.Spec
 import TornadoModel.C25.Drv
@@ -71,7 +71,11 @@ def handle (toks : List String) : String :=
     match V.parse w >>= V.byteNats? with
     | some bs =>
       match Spec.readBlock bs with
-      | some (ls, rest) => ok [encLines ls, V.ofByteNats rest, V.ofBool (Spec.clean ls)]
+      | some (ls, rest) =>
+        ok [encLines ls, V.ofByteNats rest, V.ofBool (Spec.clean ls),
+            .list (ls.tail.map (fun l => match Spec.parseField l with
+              | some (n, v) => .list [V.ofByteNats n, V.ofByteNats v]
+              | none => .atom "NoField"))]
       | none => ok [.atom "Malformed"]
     | none => err "bad-arg"
   | _ => err "bad-line"
